@@ -22,7 +22,7 @@ func errKind(err error) string {
 func vRun(op string, in M) M {
 	switch op {
 	case "b1t6.Encode":
-		src := vBytes(in["bytes"])
+		src := vBuf("b1t6.Encode src", in["bytes"])
 		keep := append([]byte{}, src...)
 		dst := make(trinary.Trits, EncodedLen(len(src)))
 		for i := range dst { // a reused destination: every trit must be written
@@ -34,6 +34,7 @@ func vRun(op string, in M) M {
 			n = Encode(dst, src)
 			trytes = string(EncodeToTrytes(src))
 		})
+		vKeepStr("b1t6.EncodeToTrytes result", trytes)
 		return M{"trits": vInts8(dst), "n": n, "trytes": vInts([]byte(trytes)), "panic": p,
 			"enclen": EncodedLen(len(src)), "unmodified": string(keep) == string(src)}
 	case "b1t6.Decode":
@@ -51,6 +52,7 @@ func vRun(op string, in M) M {
 		var b []byte
 		var err error
 		p := vCatch(func() { b, err = DecodeTrytes(src) })
+		vOwnOrKeep("b1t6.DecodeTrytes result", b)
 		return M{"ok": err == nil && p == "", "err": errKind(err), "bytes": vInts(b), "panic": p}
 	}
 	panic("unknown op " + op)
